@@ -115,7 +115,10 @@ def jobs(tier):
                      bounded="tabular ceil((double)size_col/nb): size_col = %d, nb = %d / %d; nodes symbolic" % (sc, n1, n2),
                      functions=["redistribute_distribution_num_cols", "redistribute_pair_num_cols"], timeout=600, min_obligations=5))
     # (4) copy kernels ---------------------------------------------------------------------------------------------
-    for mb, nb, tld, yld in ([(3, 2, 4, 3), (2, 3, 2, 2), (1, 1, 1, 1), (4, 3, 6, 5)] if full else [(3, 2, 4, 3)]):
+    # (3,2,3,5) and (2,2,4,2): a leading dimension equal to the block height on ONE side only (tile storage on one side, LAPACK on
+    # the other) -- added after seeded change C21 (a 'contiguous' fast path testing only the target's leading dimension)
+    for mb, nb, tld, yld in ([(3, 2, 4, 3), (3, 2, 3, 5), (2, 2, 4, 2), (2, 3, 2, 2), (1, 1, 1, 1), (4, 3, 6, 5)] if full
+                             else [(3, 2, 4, 3), (3, 2, 3, 5), (2, 2, 4, 2)]):
         J.append(Job("copy.%dx%d_ld%d_%d" % (mb, nb, tld, yld), "h_helpers.c", entry="h_copy", unwind=150,
                      defines={"CMB": mb, "CNB": nb, "CTLD": tld, "CYLD": yld},
                      bounded="block %d x %d, T_LDA %d, Y_LDA %d; contents symbolic" % (mb, nb, tld, yld),
